@@ -69,3 +69,98 @@ Definition diff_trace (cfg : config) (π : proj) (impl : trace) : list mismatch 
 Record violation := { v_index : nat; v_code : Z; v_info : list Z }.
 Definition pred := config → trace → list violation.
 Definition P_none : pred := λ _ _, [].
+
+(* ---------- the membership observer ----------
+   Who is in which session under which participant id, recomputed from the
+   trace alone: join responses, refused joins, departures. *)
+Definition members := gmap N (N * N).      (* connection -> (session id, participant id) *)
+
+Definition find_join_resp (c : N) (outs : list delivery) : option (N * N) :=
+  head (omap (λ d, match d with
+                   | (c', MJoinResp _ s _ p) => if c' =? c then Some (s, p) else None
+                   | _ => None end) outs).
+Definition has_error (c code : N) (outs : list delivery) : bool :=
+  existsb (λ d, match d with (c', MError _ k) => (c' =? c) && (k =? code) | _ => false end) outs.
+
+Definition obs_step (m : members) (e : event) : members :=
+  match ev_op e with
+  | OStep c _ =>
+      match ev_verdict e with
+      | VErr => delete c m
+      | _ =>
+        match ev_req e with
+        | Some (RJoin _ _ _) =>
+            match find_join_resp c (ev_outs e) with
+            | Some sp => <[c := sp]> m
+            | None => if has_error c E_NOT_FOUND (ev_outs e) then delete c m else m
+            end
+        | _ => m
+        end
+      end
+  | OSend c _ => match ev_verdict e with VErr => delete c m | _ => m end
+  | ODisconnect c => delete c m
+  | _ => m
+  end.
+
+(* participants of session [sid] according to the observer: (pid, conn), ascending pid *)
+Definition members_of (m : members) (sid : N) : list (N * N) :=
+  sort_by (λ pc, [zn (fst pc)])
+          (omap (λ kv, if fst (snd kv) =? sid then Some (snd (snd kv), fst kv) else None) (map_to_list m)).
+
+(* fold a per-event checker along the trace, threading the observer (state before the event) *)
+Fixpoint scan {A} (f : nat → members → event → list A) (i : nat) (m : members) (t : trace) : list A :=
+  match t with
+  | [] => []
+  | e :: t' => f i m e ++ scan f (S i) (obs_step m e) t'
+  end.
+
+Definition blank (e : event) : event :=
+  {| ev_op := OSnap; ev_req := None; ev_outs := []; ev_verdict := VOk |}.
+Definition proj_by (keep_ev : event → bool) (keep_msg : msg → bool) : proj :=
+  λ e, if keep_ev e
+       then {| ev_op := ev_op e; ev_req := ev_req e;
+               ev_outs := List.filter (λ d, keep_msg (snd d)) (ev_outs e); ev_verdict := ev_verdict e |}
+       else blank e.
+
+Definition sort_lines (l : list (list Z)) : list (list Z) := isort lex_leb l.
+
+(* ================= C14: custom messages ================= *)
+Definition is_custom_req (e : event) : bool :=
+  match ev_req e with Some (RCustom _ _ _) => true | _ => false end.
+Definition is_custom_msg (m : msg) : bool :=
+  match m with MCustomB _ _ _ => true | MError _ _ => true | _ => false end.
+Definition pi_C14 : proj := proj_by is_custom_req is_custom_msg.
+
+Definition viol (i : nat) (code : Z) (info : list Z) : violation :=
+  {| v_index := i; v_code := code; v_info := info |}.
+
+(* expected deliveries of a custom message sent by (c, p) in session sid *)
+Definition c14_expected (m : members) (sid p : N) (rcpts body : list N) (ots : N) : list (list Z) :=
+  let mem := members_of m sid in
+  let targets := match rcpts with
+                 | [] => List.filter (λ pc, negb (fst pc =? p)) mem
+                 | _ => List.filter (λ pc, negb (fst pc =? p) && memN (fst pc) rcpts) mem
+                 end in
+  sort_lines (map (λ pc, enc_delivery (snd pc, MCustomB ots p body)) targets).
+
+Definition P_C14_event (cfg : config) (i : nat) (m : members) (e : event) : list violation :=
+  match ev_op e, ev_req e with
+  | OStep c _, Some (RCustom rcpts body ots) =>
+    let got := sort_lines (map enc_delivery (List.filter (λ d, match snd d with MCustomB _ _ _ => true | _ => false end) (ev_outs e))) in
+    match m !! c with
+    | None =>
+        (* not in a session: never executed *)
+        if bool_decide (got = []) then [] else [viol i 1401 [zn c]]
+    | Some (sid, p) =>
+        if custom_max <? N.of_nat (length body) then
+          (if bool_decide (got = []) then [] else [viol i 1402 [zn c; Z.of_nat (length body)]]) ++
+          (if has_error c E_TOO_LARGE (ev_outs e) then [] else [viol i 1403 [zn c; Z.of_nat (length body)]])
+        else if flag_on cfg F_CUSTOM_B then []
+        else
+          (if bool_decide (got = c14_expected m sid p rcpts body ots) then []
+           else [viol i 1404 [zn c; zn p; Z.of_nat (length body); Z.of_nat (length got)]]) ++
+          (if has_error c E_TOO_LARGE (ev_outs e) then [viol i 1405 [zn c; Z.of_nat (length body)]] else [])
+    end
+  | _, _ => []
+  end.
+Definition P_C14 : pred := λ cfg t, scan (P_C14_event cfg) 0 ∅ t.
